@@ -139,7 +139,12 @@ func ClassValues(m string) []interface{} {
 		var nilInt *int
 		return []interface{}{nil, 1, "s\"\xff", 1.5, plainStruct{1, "b\n", nil}, map[string]interface{}{"z": 1, "a": []int{1}}, make(chan int), ObjV{Fields: []Field{{M: "Str", Key: "in", Val: "o"}}}, json.RawMessage(`{"r":1}`), []int{1, 2}, nilInt, (*ObjP)(nil), math.NaN(), []byte("b"), "<& "}
 	case "Type":
-		return []interface{}{nil, 1, "s", ObjV{}, (*PErr)(nil)}
+		// the type string of an anonymous struct carries its tags verbatim: quotes, backslashes, control bytes
+		return []interface{}{nil, 1, "s", ObjV{}, (*PErr)(nil), struct {
+			A int `json:"a"`
+		}{1}, struct {
+			B string "q\\r\n\x01é"
+		}{"b"}, map[string][]*int(nil)}
 	case "IPAddr":
 		return []interface{}{net.IP(nil), IPv4, IPv4m, IPv6}
 	case "IPPrefix":
